@@ -250,7 +250,7 @@ static int record(int argc, char **argv)
     const int K = thorough ? 12 : 2;                  // interior pairs per branch case
     const long poolBudget = thorough ? 40000000 : 3000000;
     const int fanPerNode = thorough ? 6 : 1;          // boundary points per decision node
-    const long randomPairs = thorough ? 60000 : 1500;
+    const long randomPairs = thorough ? 40000 : 1500;
     Gen &g = cx.gen;
     int rr = 0;  // radius round-robin
     json summary;
@@ -498,14 +498,14 @@ static int record(int argc, char **argv)
             }
             // a CSC word whose first or last arc is tiny (1e-7 .. 2e-6 rad): next to the 0 / 2pi seam of the arc angles
             // the switching functions read, around the 5e-7 below which the library snaps an angle to 0
-            for (int k = 0; k < 8; ++k)
+            for (int k = 0; k < 16; ++k)
             {
-                static const double tiny[8] = {2e-7, 4e-7, 4.9e-7, 5.1e-7, 5.3e-7, 6e-7, 1e-6, 2e-6};
+                static const double tiny[8] = {3e-7, 4.9e-7, 5.02e-7, 5.05e-7, 5.08e-7, 5.15e-7, 5.3e-7, 1e-6};
                 Spaces &S = cx.sp(rr++);
-                const char *w = DWORD_SEG[(k + r) % 4];
+                const char *w = DWORD_SEG[2 + (k + r) % 2];   // RSL, LSR: the words the end-arc switching functions decide against
                 LD x = 0, y = 0, th = g.ang() - M_PI, th0 = th;
-                LD t = 0.2 + 2.6 * g.u(), p = 1 + 15 * g.u() * g.u(), q = tiny[(k + r / 4) % 8];
-                if ((k / 4 + r) % 2)
+                LD t = 0.2 + 2.6 * g.u(), p = 1 + 15 * g.u() * g.u(), q = tiny[k % 8];
+                if (k / 8)
                     std::swap(t, q);
                 advance(x, y, th, w[0], t);
                 advance(x, y, th, w[1], p);
